@@ -2,7 +2,7 @@ use std::collections::HashMap;
 use std::path;
 use std::result::Result;
 
-use tokio::io::{AsyncBufReadExt, AsyncReadExt};
+use tokio::io::AsyncReadExt;
 use tokio_stream::StreamExt;
 
 use crate::core::error::MonorailError;
@@ -137,6 +137,18 @@ pub(crate) async fn git_cmd_rev_parse(
     }
 }
 
+// Paths as printed by git with `-z`: separated by NUL and verbatim. Without `-z`
+// git quotes and escapes names that contain quotes, control or non-ASCII bytes,
+// and such a name no longer matches any target, `uses`, `ignores` or pending entry.
+fn parse_nul_paths(data: &[u8]) -> Vec<Change> {
+    data.split(|b| *b == 0)
+        .filter(|p| !p.is_empty())
+        .map(|p| Change {
+            name: String::from_utf8_lossy(p).into_owned(),
+        })
+        .collect()
+}
+
 pub(crate) async fn git_cmd_other_changes(
     git_path: &str,
     work_path: &path::Path,
@@ -144,17 +156,14 @@ pub(crate) async fn git_cmd_other_changes(
     let mut child = get_git_cmd_child(
         git_path,
         work_path,
-        &["ls-files", "--others", "--exclude-standard"],
+        &["ls-files", "--others", "--exclude-standard", "-z"],
     )
     .await?;
-    let mut out = vec![];
-    if let Some(stdout) = child.stdout.take() {
-        let reader = tokio::io::BufReader::new(stdout);
-        let mut lines = reader.lines();
-        while let Some(line) = lines.next_line().await? {
-            out.push(Change { name: line });
-        }
+    let mut stdout_data = Vec::new();
+    if let Some(mut stdout) = child.stdout.take() {
+        stdout.read_to_end(&mut stdout_data).await?;
     }
+    let out = parse_nul_paths(&stdout_data);
     let mut stderr_string = String::new();
     if let Some(mut stderr) = child.stderr.take() {
         stderr.read_to_string(&mut stderr_string).await?;
@@ -181,7 +190,7 @@ pub(crate) async fn git_cmd_diff_changes(
     begin: Option<&str>,
     end: Option<&str>,
 ) -> Result<Vec<Change>, MonorailError> {
-    let mut args = vec!["diff", "--name-only", "--no-renames"];
+    let mut args = vec!["diff", "--name-only", "--no-renames", "-z"];
     if let Some(begin) = begin {
         args.push(begin);
     }
@@ -189,14 +198,11 @@ pub(crate) async fn git_cmd_diff_changes(
         args.push(end);
     }
     let mut child = get_git_cmd_child(git_path, work_path, &args).await?;
-    let mut out = vec![];
-    if let Some(stdout) = child.stdout.take() {
-        let reader = tokio::io::BufReader::new(stdout);
-        let mut lines = reader.lines();
-        while let Some(line) = lines.next_line().await? {
-            out.push(Change { name: line });
-        }
+    let mut stdout_data = Vec::new();
+    if let Some(mut stdout) = child.stdout.take() {
+        stdout.read_to_end(&mut stdout_data).await?;
     }
+    let out = parse_nul_paths(&stdout_data);
     let mut stderr_string = String::new();
     if let Some(mut stderr) = child.stderr.take() {
         stderr.read_to_string(&mut stderr_string).await?;
